@@ -340,3 +340,74 @@ def rule_memo_scope_free(ctx, rid="R7.6"):
         else:
             r.ok(where, "%s: reads no scope state (%s)" % (name, ",".join(sorted(fields))))
     return r
+
+
+
+def rule_lazy_inside_scope(ctx, rid="R2.8"):
+    """An error iterator is lazy: the validation it stands for runs when it is iterated.  One that is created while a resolution
+    scope is entered -- inside `with resolver.resolving(...)/in_scope(...)`, or between a push_scope and the pop in its `finally`
+    -- must be iterated there too; iterated after the region it resolves every reference of the referenced document against
+    the scope that was in force *outside*."""
+    prog = ctx.prog
+    calls = calls_of(prog)
+    push, pop = push_pop_funcs(prog)
+    r = ctx.rule(rid, "an error iterator created inside an entered resolution scope is consumed inside it (not returned, yielded whole or iterated later)", floor=2)
+
+    def is_gen_call(f, e):
+        return isinstance(e, ast.Call) and isinstance(e.func, ast.Attribute) and e.func.attr in ("descend", "iter_errors")
+
+    def scope_region(f, node):
+        """is `node` a with/try statement that enters a scope for its body?"""
+        if isinstance(node, ast.With):
+            for it in node.items:
+                c = it.context_expr
+                if isinstance(c, ast.Call) and isinstance(c.func, ast.Attribute) and c.func.attr in ("resolving", "in_scope"):
+                    return True
+        if isinstance(node, ast.Try) and node.finalbody:
+            for x in node.finalbody:
+                for sub in ast.walk(x):
+                    if isinstance(sub, ast.Call) and any(t.kind == "func" and t.func is pop for t in calls.callee(f, sub)):
+                        return True
+        return False
+    for f in sorted(prog.funcs.values(), key=lambda x: x.qual):
+        parents = {}
+        for st in f.body:
+            for a in ast.walk(st):
+                for ch in ast.iter_child_nodes(a):
+                    parents[id(ch)] = a
+
+        def regions(n):
+            out, cur = [], parents.get(id(n))
+            child = n
+            while cur is not None:
+                if scope_region(f, cur) and (child in getattr(cur, "body", [])):
+                    out.append(cur)
+                child, cur = cur, parents.get(id(cur))
+            return out
+        n_here = 0
+        for n in walk_body(f):
+            if isinstance(n, ast.Assign) and len(n.targets) == 1 and isinstance(n.targets[0], ast.Name) and is_gen_call(f, n.value):
+                regs = regions(n)
+                if not regs:
+                    continue
+                n_here += 1
+                name = n.targets[0].id
+                uses = [u for u in walk_body(f) if isinstance(u, ast.Name) and u.id == name and isinstance(u.ctx, ast.Load)]
+                outside = [u for u in uses if not any(rg in regions(u) for rg in regs[:1])]
+                if outside:
+                    r.fail("%s|iterated-after-scope|%s" % (f.qual, name), site(f, outside[0]),
+                           "`%s = %s` is created inside an entered scope but used after it (`%s`): the referenced document is validated with "
+                           "the outer resolution scope, so its own relative references resolve against the wrong document" % (
+                               name, norm(n.value)[:40], norm(parents.get(id(outside[0]), outside[0]))[:50]))
+                else:
+                    r.ok(site(f, n), "%s is consumed inside the region that entered the scope" % name)
+            elif isinstance(n, ast.Return) and n.value is not None and is_gen_call(f, n.value) and regions(n):
+                n_here += 1
+                r.fail("%s|returned-from-scope" % f.qual, site(f, n), "`%s` hands an unconsumed error iterator out of the region that entered the scope" % norm(n)[:60])
+            elif isinstance(n, (ast.For,)) and is_gen_call(f, n.iter) and regions(n):
+                n_here += 1
+                r.ok(site(f, n), "iterated where it is created, inside the entered scope")
+            elif isinstance(n, ast.YieldFrom) and is_gen_call(f, n.value) and regions(n):
+                n_here += 1
+                r.ok(site(f, n), "yield from inside the entered scope")
+    return r
